@@ -258,9 +258,12 @@ impl ToPrimitive for BigDecimalRef<'_> {
                 }
             }
             None => {
-                // exponenent too big for i32: return appropriate infinity
+                // exponenent too big for i32: return appropriate infinity,
+                // or zero if the exponent is that far *below* the float range
                 verif_probe!(ToF64_Infinity);
-                let result = if self.sign != Sign::Minus {
+                let result = if scale > 0 {
+                    copy_sign_to_float(0.0)
+                } else if self.sign != Sign::Minus {
                     f64::INFINITY
                 } else {
                     f64::NEG_INFINITY
